@@ -849,6 +849,10 @@ void GridFourier::mergeRefinement(){
     int num_all_points = getNumLoaded() + getNumNeeded();
     values.setValues(std::vector<double>(Utils::size_mult(num_outputs, num_all_points), 0.0));
     acceptUpdatedTensors();
+    clearGpuCoefficients();
+    if (num_outputs > 0) // all values are zero, hence all coefficients are zero too
+        fourier_coefs = Data2D<double>(num_outputs, 2 * points.getNumIndexes(), 0.0);
+    max_power = MultiIndexManipulations::getMaxIndexes(points);
 }
 
 void GridFourier::beginConstruction(){
